@@ -4,8 +4,8 @@ import json, os, glob
 ROOT = os.path.dirname(os.path.dirname(os.path.abspath(__file__)))
 res = json.load(open(os.path.join(ROOT, "seeded", "RESULTS.json")))
 extra = json.load(open(os.path.join(ROOT, "seeded", "CROSS.json"))) if os.path.exists(os.path.join(ROOT, "seeded", "CROSS.json")) else {}
-print("| change | property | what was changed | needs | own check | detail |")
-print("|---|---|---|---|---|---|")
+print("| change | property | what was changed | needs | first run of the own check | now | detail |")
+print("|---|---|---|---|---|---|---|")
 for d in sorted(glob.glob(os.path.join(ROOT, "seeded", "C[0-9]*_*"))):
     n = os.path.basename(d)
     m = json.load(open(os.path.join(d, "meta.json")))
@@ -20,4 +20,7 @@ for d in sorted(glob.glob(os.path.join(ROOT, "seeded", "C[0-9]*_*"))):
     detail = " ".join(x for x in s.split() if x.split("=")[0] in ("discharged", "obligations", "mismatches", "violations"))
     if n in extra:
         detail += "; " + extra[n]
-    print(f"| {n} | {m['property']} | {' '.join(m['summary'].replace('|', '/').split())} | {' '.join(m.get('manifests_when', '').replace('|', '/').split())[:220]} | {verdict} | {detail} |")
+    first = "reported" if r.get("first_run_detected", True) else "missed"
+    print(f"| {n} | {m['property']} | {' '.join(m['summary'].replace('|', '/').split())} | {' '.join(m.get('manifests_when', '').replace('|', '/').split())[:220]} | {first} | {verdict} | {detail} |")
+
+
